@@ -94,6 +94,29 @@ def fn_body(src, header_re, what):
     raise Fail(what + " (unbalanced)")
 
 
+def spelling_table(src, what):
+    """the one function of `src` (whatever its name) whose body maps all 26 BinaryOp variants to string
+    literals: found by content, so that renaming the helper does not break the tie"""
+    found = []
+    for m in re.finditer(r"\bfn\s+\w+\s*\([^)]*\)\s*->\s*&'static\s+str\s*\{", src):
+        i = src.index("{", m.end() - 1)
+        depth, j = 0, i
+        while j < len(src):
+            if src[j] == "{":
+                depth += 1
+            elif src[j] == "}":
+                depth -= 1
+                if depth == 0:
+                    break
+            j += 1
+        arms = re.findall(r'BinaryOp::(\w+)\s*=>\s*"([^"]*)"', src[i:j])
+        if len(arms) == 26 and len(set(a for a, _ in arms)) == 26:
+            found.append(arms)
+    if len(found) != 1:
+        raise Fail("%s: expected exactly one function with 26 `BinaryOp::X => \"..\"` arms, found %d" % (what, len(found)))
+    return found[0]
+
+
 # ------------------------------------------------------------------------------- Prec
 def gen_prec():
     src = read("blots-core/src/precedence.rs")
@@ -129,19 +152,15 @@ def gen_prec():
         raise Fail("precedence.rs: prefix/postfix registration")
 
     ats = read("blots-core/src/ast_to_source.rs")
-    body = fn_body(ats, r"fn binary_op_to_source\(op: &BinaryOp\)\s*->\s*&'static str\s*\{", "ast_to_source.rs: binary_op_to_source")
-    spell_src = re.findall(r'BinaryOp::(\w+)\s*=>\s*"([^"]*)"', body)
+    spell_src = spelling_table(ats, "ast_to_source.rs: operator spelling table (binary_op_to_source)")
     fm = read("blots-core/src/formatter.rs")
-    body = fn_body(fm, r"fn binary_op_str\(op: &BinaryOp\)\s*->\s*&'static str\s*\{", "formatter.rs: binary_op_str")
-    spell_fmt = re.findall(r'BinaryOp::(\w+)\s*=>\s*"([^"]*)"', body)
-    if len(spell_src) != 26 or len(spell_fmt) != 26:
-        raise Fail("operator spelling tables do not have 26 rows")
+    spell_fmt = spelling_table(fm, "formatter.rs: operator spelling table (binary_op_str)")
 
     # grammar literals of operator rules
     g = read("blots-core/src/grammar.pest")
     gram = {}
     for rule in set(r for _, _, _, r in rows) | {"negation", "invert", "natural_not", "factorial", "spread_operator"}:
-        m = need(re.search(r"^%s\s*=\s*\{\s*\"([^\"]*)\"\s*\}" % re.escape(rule), g, re.M), "grammar.pest: rule " + rule)
+        m = need(re.fullmatch(r'\{\s*"([^"]*)"\s*\}', rule_text(g, rule)), "grammar.pest: rule " + rule)
         gram[rule] = m.group(1)
     # map_infix: rule → BinaryOp
     ex = read("blots-core/src/expressions.rs")
@@ -150,15 +169,11 @@ def gen_prec():
     if len(infix_map) != 26:
         raise Fail("expressions.rs: map_infix does not have 26 arms")
     # infix_op alternation order in the grammar (PEG ordered choice!)
-    m = need(re.search(r"^infix_op\s*=\s*_\{(.*?)\}", g, re.M), "grammar.pest: infix_op")
-    infix_order = [x.strip() for x in m.group(1).split("|")]
-    m = need(re.search(r"^natural_infix_op\s*=\s*_\{(.*?)\}", g, re.M), "grammar.pest: natural_infix_op")
-    natural_order = [x.strip() for x in m.group(1).split("|")]
-    m = need(re.search(r"^lambda_natural_infix_op\s*=\s*_\{(.*?)\}", g, re.M), "grammar.pest: lambda_natural_infix_op")
-    lambda_natural_order = [x.strip() for x in m.group(1).split("|")]
+    infix_order = [x.strip() for x in rule_body(g, "infix_op").split("|")]
+    natural_order = [x.strip() for x in rule_body(g, "natural_infix_op").split("|")]
+    lambda_natural_order = [x.strip() for x in rule_body(g, "lambda_natural_infix_op").split("|")]
 
-    # needs_parens_in_binop : the set of "non-associative" parents, kept as data
-    np = fn_body(ats, r"pub fn needs_parens_in_binop\(", "ast_to_source.rs: needs_parens_in_binop")
+    np = None
 
     L = []
     L.append("import Blots.Model.Syntax")
@@ -223,6 +238,18 @@ def gen_builtins():
     allv = re.findall(r"Self::(\w+)", body)
     if not (len(from_ident) == len(names) == len(ar) == len(allv)) or len(names) < 60:
         raise Fail("functions.rs: from_ident/name/arity/all tables disagree in size (%d %d %d %d)" % (len(from_ident), len(names), len(ar), len(allv)))
+
+    # the order of the match arms is not observable: emit the tables in a pinned order (new built-ins
+    # after the pinned ones, in source order), so that reordering arms does not disturb positional proofs
+    try:
+        import json
+        po = json.load(open(os.path.join(os.path.dirname(os.path.abspath(__file__)), "pinned_order.json")))
+    except Exception:
+        po = {}
+    pi = {k: i for i, k in enumerate(po.get("builtin_idents", []))}
+    pv = {k: i for i, k in enumerate(po.get("builtin_variants", []))}
+    from_ident = [x for _, x in sorted(enumerate(from_ident), key=lambda t: (0, pi[t[1][0]], t[0]) if t[1][0] in pi else (1, t[0], t[0]))]
+    names = [x for _, x in sorted(enumerate(names), key=lambda t: (0, pv[t[1][0]], t[0]) if t[1][0] in pv else (1, t[0], t[0]))]
 
     def arity(v):
         a = ar[v]
@@ -293,6 +320,40 @@ PINNED_RULES = {
     "decimal_number": '_{ (integer ~ ("_"+ ~ integer)* ~ ("." ~ ASCII_DIGIT+)? | !integer ~ "." ~ ASCII_DIGIT+) ~ (^"e" ~ integer)? }',
     "integer": '_{ ("+" | "-")? ~ ASCII_DIGIT+ }',
     "dot_access": '{ "." ~ identifier }',
+    # postfix forms with a payload (Model/ExprPeg.lean `postOpR`, `argR`, `argsTailR`, `callClose`):
+    # `access` / `dot_access` are NORMAL rules (atomic inside the `$` rule `expression`),
+    # `call_list` is NON-ATOMIC (implicit WHITESPACE* between its parts)
+    "access": '{ "[" ~ NEWLINE* ~ expression ~ NEWLINE* ~ "]" }',
+    "call_list": '!{ "(" ~ NEWLINE* ~ (spreadable_expression ~ ("," ~ NEWLINE* ~ spreadable_expression)*)?'
+                 ' ~ ("," ~ NEWLINE)? ~ NEWLINE* ~ ")" }',
+    "spread_operator": '{ "..." }',
+    "spread_expression": "${ spread_operator ~ expression }",
+    "spreadable_expression": "_{ spread_expression | expression }",
+    # list literals (Model/ExprPeg.lean `termR`, `gapG`, `gapH`, `itemTrail`, `listClose`): NON-ATOMIC
+    "comment": '@{ "//" ~ (!plain_newline ~ ANY)* }',
+    "eol_comment": '@{ "//" ~ (!plain_newline ~ ANY)* }',
+    "list_item": "{ spreadable_expression ~ (WHITESPACE* ~ eol_comment)? }",
+    "list": '!{ "[]" | "[" ~ (comment ~ (WHITESPACE | plain_newline)+ | WHITESPACE | plain_newline)*'
+            ' ~ (list_item ~ ("," ~ (comment ~ (WHITESPACE | plain_newline)+ | WHITESPACE | plain_newline)* ~ list_item)*)?'
+            ' ~ ("," ~ (WHITESPACE | plain_newline)*)?'
+            ' ~ (comment ~ (WHITESPACE | plain_newline)* | WHITESPACE | plain_newline)* ~ "]" }',
+    # lambdas (Model/ExprPeg.lean `lamR`, `lambdaHead`, `argumentList`, `argumentR`; the flag `lam` of
+    # `exprR` / `tailR` / `infixUsage` selects `lambda_infix_usage`)
+    "lambda": '${ argument_list ~ WHITESPACE* ~ "=>" ~ (WHITESPACE | NEWLINE)* ~ lambda_expression }',
+    "lambda_expression": "${ prefix_usage* ~ lambda_term ~ postfix_op* ~ (lambda_infix_usage ~ prefix_usage* ~ lambda_term ~ postfix_op*)* }",
+    "lambda_term": "_{ conditional | do_block | lambda | assignment | list | record | bool | string | null"
+                   " | input_reference | identifier | number | nested_expression }",
+    "lambda_infix_usage": "_{ (WHITESPACE | NEWLINE)+ ~ lambda_natural_infix_op ~ WHITESPACE+"
+                          " | (WHITESPACE | NEWLINE)* ~ infix_op ~ (WHITESPACE | NEWLINE)* }",
+    "lambda_natural_infix_op": "_{ natural_and | natural_or }",
+    "argument_list": '!{ argument | "(" ~ NEWLINE* ~ (argument ~ ("," ~ NEWLINE* ~ argument)*)? ~ ("," ~ NEWLINE)? ~ NEWLINE* ~ ")" }',
+    "argument": "_{ optional_arg | required_arg | rest_arg }",
+    "required_arg": "{ identifier }",
+    "optional_arg": '{ identifier ~ "?" }',
+    "rest_arg": '{ "..." ~ identifier }',
+    # conditionals (Model/ExprPeg.lean `condR`, `ifHead`, `kwGap`): atomic, explicit layout
+    "conditional": '${ "if" ~ WHITESPACE+ ~ expression ~ (WHITESPACE | NEWLINE)+ ~ "then" ~ (WHITESPACE | NEWLINE)+ ~ expression'
+                   ' ~ (WHITESPACE | NEWLINE)+ ~ "else" ~ (WHITESPACE | NEWLINE)+ ~ expression }',
 }
 # rules of which only the beginning matters to the model (`termStart`/`termWord` argue that
 # they cannot match a bare word because a space / "=" / sign must follow)
@@ -306,50 +367,158 @@ PINNED_PREFIXES = {
 }
 
 
+_GRAMMAR_CACHE = {}
+
+
+def grammar_rules(g):
+    """name -> text of the rule after `=` (modifier and braces included), comments removed and white
+    space normalised to single blanks, whatever the line layout of the file.  A small scanner: string
+    literals ("..", with backslash escapes) and character literals ('.') are copied verbatim, `//` starts a
+    comment only outside them, a rule ends at the brace that closes its body."""
+    if id(g) in _GRAMMAR_CACHE:
+        return _GRAMMAR_CACHE[id(g)]
+    toks = []          # (kind, text): kind in {"str", "sym", "ws"}
+    i, n = 0, len(g)
+    while i < n:
+        c = g[i]
+        if c == '"':
+            j = i + 1
+            while j < n and g[j] != '"':
+                j += 2 if g[j] == "\\" else 1
+            toks.append(("str", g[i:j + 1]))
+            i = j + 1
+        elif c == "'":
+            j = i + 1
+            while j < n and g[j] != "'":
+                j += 2 if g[j] == "\\" else 1
+            toks.append(("str", g[i:j + 1]))
+            i = j + 1
+        elif g.startswith("//", i):
+            j = g.find("\n", i)
+            i = n if j < 0 else j
+        elif c.isspace():
+            while i < n and g[i].isspace():
+                i += 1
+            toks.append(("ws", " "))
+        else:
+            toks.append(("sym", c))
+            i += 1
+    rules = {}
+    k = 0
+    while k < len(toks):
+        # rule name
+        while k < len(toks) and toks[k][0] == "ws":
+            k += 1
+        if k >= len(toks):
+            break
+        name = ""
+        while k < len(toks) and toks[k][0] == "sym" and (toks[k][1].isalnum() or toks[k][1] == "_"):
+            name += toks[k][1]
+            k += 1
+        while k < len(toks) and toks[k][0] == "ws":
+            k += 1
+        if not name or k >= len(toks) or toks[k] != ("sym", "="):
+            raise Fail("grammar.pest: cannot split into rules near %r" % "".join(t for _, t in toks[max(0, k - 5):k + 5]))
+        k += 1
+        depth, body, started = 0, [], False
+        while k < len(toks):
+            kind, t = toks[k]
+            if kind != "ws":
+                body.append(t)
+            k += 1
+            if kind == "sym" and t == "{":
+                depth += 1
+                started = True
+            elif kind == "sym" and t == "}":
+                depth -= 1
+                if started and depth == 0:
+                    break
+        rules[name] = "".join(body)
+    _GRAMMAR_CACHE[id(g)] = rules
+    return rules
+
+
+def squash_rule(text):
+    """a rule text without the white space outside its string / character literals (white space is never
+    significant there in a pest grammar)"""
+    out, i, n = [], 0, len(text)
+    while i < n:
+        c = text[i]
+        if c in "\"'":
+            j = i + 1
+            while j < n and text[j] != c:
+                j += 2 if text[j] == "\\" else 1
+            out.append(text[i:j + 1])
+            i = j + 1
+        elif c.isspace():
+            i += 1
+        else:
+            out.append(c)
+            i += 1
+    return "".join(out)
+
+
 def rule_text(g, name):
-    ms = re.findall(r"^%s[ \t]*=[ \t]*(.*?)[ \t]*$" % re.escape(name), g, re.M)
-    if len(ms) != 1:
-        raise Fail("grammar.pest: rule %s found %d times" % (name, len(ms)))
-    return " ".join(ms[0].split())
+    r = grammar_rules(g)
+    if name not in r:
+        raise Fail("grammar.pest: rule %s not found" % name)
+    return r[name]
+
+
+def rule_body(g, name, what=None):
+    """the text between the outer braces of a rule"""
+    t = rule_text(g, name)
+    i, j = t.find("{"), t.rfind("}")
+    if i < 0 or j < i:
+        raise Fail(what or ("grammar.pest: rule " + name))
+    return t[i + 1:j].strip()
 
 
 def check_pinned_rules(g):
     for name, want in PINNED_RULES.items():
         got = rule_text(g, name)
-        if got != " ".join(want.split()):
+        if got != squash_rule(want):
             raise Fail("grammar.pest: rule `%s` is now `%s`; lean/Blots/Model/Ident.lean / ExprPeg.lean model `%s`" % (name, got, want))
     for name, want in PINNED_PREFIXES.items():
         got = rule_text(g, name)
-        if not got.startswith(" ".join(want.split())):
+        if not got.startswith(squash_rule(want)):
             raise Fail("grammar.pest: rule `%s` no longer starts with `%s` (now `%s`); see lean/Blots/Model/Ident.lean `termStart`" % (name, want, got[:80]))
 
 
 def gen_reserved():
     g = read("blots-core/src/grammar.pest")
-    m = need(re.search(r"^reserved_word\s*=\s*_\{(.*?)\}", g, re.M), "grammar.pest: reserved_word")
     # the alternatives IN GRAMMAR ORDER (PEG ordered choice: Model/Ident.lean `reservedWord`
     # tries them in this order); every alternative must be a plain string literal
-    alts = [a.strip() for a in m.group(1).split("|")]
+    alts = [a.strip() for a in rule_body(g, "reserved_word").split("|")]
     for a in alts:
         if not re.fullmatch(r'"\w+"', a):
             raise Fail("grammar.pest: reserved_word alternative %r is not a plain string literal" % a)
     gram = [a[1:-1] for a in alts]
     check_pinned_rules(g)
     ats = read("blots-core/src/ast_to_source.rs")
-    m = need(re.search(r"const RESERVED_WORDS: &\[&str\] = &\[(.*?)\];", ats, re.S), "ast_to_source.rs: RESERVED_WORDS")
+    # whatever the container type (slice, array, lazily built set): the first bracketed list of
+    # string literals after the name RESERVED_WORDS
+    m = need(re.search(r"\bRESERVED_WORDS\b[^\[;]*(?:\[[^\]]*\][^\[;]*)*?\[((?:\s*\"\w+\"\s*,?)+)\s*\]", ats, re.S), "ast_to_source.rs: RESERVED_WORDS")
     printer = re.findall(r'"(\w+)"', m.group(1))
     ex = read("blots-core/src/expressions.rs")
     # do-block assignment keyword check
     m = need(re.search(r"fn evaluate_do_block_expr\(.*?matches!\(\s*ident\.as_str\(\),(.*?)\)\s*\{", ex, re.S), "expressions.rs: do-block keyword check")
     do_kw = re.findall(r'"(\w+)"', m.group(1))
     # top-level assignment keyword check
-    m = need(re.search(r"Expr::Assignment \{ ident, value \} => \{\s*if is_built_in_function\(ident\).*?if (ident == .*?)\{\s*return Err", ex, re.S), "expressions.rs: assignment keyword check")
-    top_kw = re.findall(r'ident == "(\w+)"', m.group(1))
+    # either a chain `ident == "if" || ...` or `matches!(ident.as_str(), "if" | ...)`
+    reg = need(re.search(r"Expr::Assignment \{ ident, value \} => \{(.*?)let already_defined", ex, re.S), "expressions.rs: assignment arm")
+    reg = reg.group(1)
+    m1 = re.search(r"if ((?:\s*ident == \"\w+\"\s*(?:\|\|)?)+)\s*\{\s*return Err", reg, re.S)
+    m2 = re.search(r"matches!\(\s*ident\.as_str\(\)\s*,((?:\s*\"\w+\"\s*\|?)+)\)\s*\{\s*return Err", reg, re.S)
+    mk = need(m1 or m2, "expressions.rs: assignment keyword check")
+    top_kw = re.findall(r'"(\w+)"', mk.group(1))
     if not gram or not printer or not do_kw or not top_kw:
         raise Fail("reserved word lists empty")
     # identifiers the evaluator treats specially
     m = need(re.search(r'Expr::Identifier\(ident\) => match ident\.as_str\(\) \{(.*?)_ => bindings', ex, re.S), "expressions.rs: special identifiers")
-    special = re.findall(r'"(\w+)"\s*=>', m.group(1))
+    special = []
+    for pat in re.findall(r'((?:"\w+"\s*\|?\s*)+)=>', m.group(1)):
+        special += re.findall(r'"(\w+)"', pat)
     heap = read("blots-core/src/heap.rs")
     consts = re.findall(r'String::from\("(\w+)"\),\s*PrimitiveValue::Number\(([^)]*(?:\([^)]*\))?[^)]*)\)', heap)
     if len(consts) < 4:
@@ -375,29 +544,62 @@ def gen_reserved():
 # ------------------------------------------------------------------- wasm format driver
 def gen_wasm():
     """blots-wasm is a cdylib returning JsValue, so its `format_blots` cannot be called natively.
-    Re-emit its body (three JS-specific rewrites) as harness/src/gen_wasm_format.rs, so the
-    harness always runs the statement loop the working tree contains."""
+    Re-emit its body (JS-specific conversions rewritten) together with every private helper function of
+    lib.rs it (transitively) calls, as harness/src/gen_wasm_format.rs, so the harness always runs the
+    statement loop the working tree contains."""
     src = read("blots-wasm/src/lib.rs")
-    m = need(re.search(r"pub fn format_blots\(source: &str, max_columns: Option<usize>\) -> Result<JsValue, JsError> \{", src),
-             "blots-wasm/src/lib.rs: format_blots signature")
-    body = fn_body(src, r"pub fn format_blots\(source: &str, max_columns: Option<usize>\) -> Result<JsValue, JsError> \{", "lib.rs: format_blots body")
+    sig = r"pub fn format_blots\(source: &str, max_columns: Option<usize>\) -> Result<JsValue, JsError> \{"
+    need(re.search(sig, src), "blots-wasm/src/lib.rs: format_blots signature")
+    body = fn_body(src, sig, "lib.rs: format_blots body")
     body = re.sub(r"JsError::new\(&format!\(", "(format!(", body)
     body = re.sub(r'JsError::new\("([^"]*)"\)', r'"\1".to_string()', body)
-    b2 = re.sub(r"\n\s*//[^\n]*\n\s*let serializer = serde_wasm_bindgen::Serializer::json_compatible\(\);\s*Ok\(result\.serialize\(&serializer\)\?\)",
-                "\n    Ok(result)", body)
-    if b2 == body:
-        b2 = re.sub(r"let serializer = serde_wasm_bindgen::Serializer::json_compatible\(\);\s*Ok\(result\.serialize\(&serializer\)\?\)", "Ok(result)", body)
-    body = b2
+    body = re.sub(r"JsError::new\(&(\w+)\)", r"(\1).to_string()", body)
+    # the JS serialisation of the result at the end: `Ok(x.serialize(&serializer)?)` -> `Ok(x)`
+    body = re.sub(r"(?:\n\s*//[^\n]*)?\n\s*let serializer = serde_wasm_bindgen::Serializer::json_compatible\(\);", "", body)
+    body = re.sub(r"Ok\((\w+)\.serialize\(&serializer\)\?\)", r"Ok(\1)", body)
     for bad in ("JsError", "JsValue", "serde_wasm_bindgen", "serializer"):
         if bad in body:
             raise Fail("blots-wasm/src/lib.rs: format_blots uses %s in a way the translator does not know" % bad)
+    # private helper functions of the crate, by name
+    helpers = {}
+    for m in re.finditer(r"^(?:#\[[^\]]*\]\s*\n)*(?:pub(?:\([^)]*\))?\s+)?fn\s+(\w+)\s*(?:<[^>]*>)?\s*\(", src, re.M):
+        name = m.group(1)
+        if name == "format_blots":
+            continue
+        head_start = m.start()
+        k = src.index("{", m.end())
+        # the body starts at the first `{` after the parameter list and return type
+        depth, q = 0, k
+        while q < len(src):
+            if src[q] == "{":
+                depth += 1
+            elif src[q] == "}":
+                depth -= 1
+                if depth == 0:
+                    break
+            q += 1
+        helpers[name] = src[head_start:q + 1]
+    used, todo = [], [body]
+    while todo:
+        text = todo.pop()
+        for name in helpers:
+            if name not in used and re.search(r"\b%s\s*\(" % re.escape(name), text):
+                used.append(name)
+                todo.append(helpers[name])
+    extra = []
+    for name in used:
+        t = helpers[name]
+        if "wasm_bindgen" in t.split("fn", 1)[0] or any(b in t for b in ("JsError", "JsValue", "serde_wasm_bindgen")):
+            raise Fail("blots-wasm/src/lib.rs: format_blots calls `%s`, which is JS-specific" % name)
+        extra.append(re.sub(r"^pub(?:\([^)]*\))?\s+fn", "fn", t, flags=re.M))
     # the crate's own imports from blots_core, verbatim (a change may add helpers)
     uses = re.findall(r"^use blots_core::(?:\{.*?\}|[^;{]*);", src, re.S | re.M)
     if not uses:
         raise Fail("blots-wasm/src/lib.rs: no `use blots_core::` statements found")
     text = ("// GENERATED by tools/gen_tables.py from /repo/blots-wasm/src/lib.rs (format_blots) - do not edit.\n"
-            "#![allow(unused_imports, clippy::all)]\n" + "\n".join(uses) + "\n\n"
-            "pub fn format_blots(source: &str, max_columns: Option<usize>) -> Result<String, String> {" + body + "}\n")
+            "#![allow(unused_imports, dead_code, clippy::all)]\n" + "\n".join(uses) + "\n\n"
+            "pub fn format_blots(source: &str, max_columns: Option<usize>) -> Result<String, String> {" + body + "}\n"
+            + "".join("\n" + e + "\n" for e in extra))
     hp = os.path.join(os.path.dirname(os.path.abspath(__file__)), "..", "harness", "src", "gen_wasm_format.rs")
     old = open(hp, encoding="utf-8").read() if os.path.exists(hp) else None
     if old != text:
@@ -406,18 +608,24 @@ def gen_wasm():
 
 
 def main():
-    try:
-        gen_prec()
-        gen_builtins()
-        gen_reserved()
-        gen_wasm()
+    """every component is translated on its own: a component that can no longer be extracted keeps its
+    previous generated file (so that everything still builds) and is reported as
+    `TRANSLATOR-FAILED <component>: <what>`; ./check turns that into a broken tie for exactly the
+    properties that depend on the component"""
+    import gen_units
+    comps = [("prec", gen_prec), ("builtins", gen_builtins), ("reserved", gen_reserved), ("wasm", gen_wasm),
+             ("units", lambda: gen_units.gen(read, write_if_changed, lean_str, Fail, fn_body))]
+    failed = False
+    for name, fn in comps:
         try:
-            import gen_units
-            gen_units.gen(read, write_if_changed, lean_str, Fail, fn_body)
-        except ImportError:
-            pass
-    except Fail as e:
-        print("TRANSLATOR-FAILED %s" % e)
+            fn()
+        except Fail as e:
+            failed = True
+            print("TRANSLATOR-FAILED %s: %s" % (name, e))
+        except Exception as e:  # a pattern that matched something unexpected
+            failed = True
+            print("TRANSLATOR-FAILED %s: %s: %s" % (name, type(e).__name__, e))
+    if failed:
         sys.exit(3)
     print("translator ok")
 
